@@ -49,9 +49,7 @@ def signature(tr: dict, i: int, clause: str, vis: str) -> str:
         cause = "listed-in-ignore_methods"
     elif tr["modign"] == "sut":
         cause = "module-in-ignore_modules"
-    elif r["inh"] != "own":
-        # written in the SUT but not in the class it is listed for: inh=sut is the view of a member
-        # inherited (not overridden) from a base class of the module under test
+    elif r["inh"] not in ("own", "sut"):
         cause = f"inh={r['inh']}"
     else:
         cause = f"name={r['nc']}@{vis}"
@@ -121,11 +119,11 @@ def run(ctx: Ctx) -> None:
         "eligibility by name follows the documentation of Configuration.element_visibility / ElementVisibility",
         "not demanded (either answer accepted): constructors and members of non-public, abstract, nested "
         "classes; enum classes as such; lambdas, coroutines, closures, properties, dunder-named members, "
-        "`main` / `test*` functions, module-level `_x__y` names under PROTECTED",
-        "a callable is defined in the class whose body contains it: a member (method, static method, class "
-        "method, property) that a class of the module under test inherits without overriding it is not a "
-        "callable of that class -- base class in another module: defined in another module; base class in the "
-        "module under test: under test once, via the base class",
+        "`main` / `test*` functions, module-level `_x__y` names under PROTECTED, members inherited from a "
+        "class of the module under test listed again under the subclass",
+        "a member (method, static method, class method, property) that a class of the module under test "
+        "inherits, without overriding it, from a class of another module is defined in another module and must "
+        "not be under test via the inheriting class",
         "'really defined in' = file of the code object / inspect.getsourcefile of the class",
         "ignore_methods entries have the form <module>.<qualname> (as consumed by instrumentation/machinery.py)",
     ]
